@@ -207,6 +207,10 @@ func runC17(p *core.Prog, r *core.Report, tier string) {
 		guard, listed := c17Guards[id.String()]
 		if listed {
 			seenGuardRows[id.String()] = true
+			// the documented guard was renamed (no mutex field of that name in the owner any more): infer
+			if !ownerHasField(f.acc[0].Base.Type(), guard) {
+				guard, listed = "", false
+			}
 		}
 		if !listed && len(cand) > 0 {
 			best := -1
@@ -962,4 +966,29 @@ func checkFilteredSwap(p *core.Prog, r *core.Report, la *core.LockAnalysis, rule
 		}
 	}
 	return n
+}
+
+func ownerHasField(t types.Type, name string) bool {
+	st := structOfType(t)
+	if st == nil {
+		return false
+	}
+	for i := 0; i < st.NumFields(); i++ {
+		if st.Field(i).Name() == name {
+			return true
+		}
+	}
+	return false
+}
+
+func structOfType(t types.Type) *types.Struct {
+	for {
+		if p, ok := t.Underlying().(*types.Pointer); ok {
+			t = p.Elem()
+			continue
+		}
+		break
+	}
+	s, _ := t.Underlying().(*types.Struct)
+	return s
 }
